@@ -208,14 +208,15 @@ Lemma check_C13_spec k :
      (forall f, s_newest x = Some f -> s_t x - f < bound (c_cfg k)) /\
      (s_extrem x = false -> s_newest x <> None)) /\
   c_left_behind k = 0 /\ (forall b, In b (c_forced_after_removal k) -> b = true) /\
-  (forall b, In b (c_forced_ok_has_file k) -> b = true).
+  (forall b, In b (c_forced_ok_has_file k) -> b = true) /\
+  (forall b, In b (c_forced_ok_old_existed k) -> b = true).
 Proof.
   unfold check_C13. rewrite !andb_true_iff, !forallb_forall, Z.eqb_eq. split.
-  - intros [[[[H1 H2] H3] H4] H5]. repeat split; auto.
+  - intros [[[[[H1 H2] H3] H4] H5] H6]. repeat split; auto.
     + intros f Hf. specialize (H1 x H). unfold sample_fresh in H1. rewrite H0, Hf in H1.
       apply Z.ltb_lt in H1. assumption.
     + intros He Hn. specialize (H2 x H). unfold sample_has_file in H2. rewrite H0, He, Hn in H2. discriminate.
-  - intros [H1 [H3 [H4 H5]]]. repeat split; auto.
+  - intros [H1 [H3 [H4 [H5 H6]]]]. repeat split; auto.
     + intros x Hx. unfold sample_fresh. destruct (s_alive x) eqn:Ea; [|reflexivity].
       destruct (s_newest x) as [f|] eqn:En; [|reflexivity]. apply Z.ltb_lt. apply (proj1 (H1 x Hx Ea)). exact En.
     + intros x Hx. unfold sample_has_file. destruct (s_alive x) eqn:Ea; [|reflexivity].
